@@ -64,11 +64,12 @@ Inductive SpellN (t : list odesc) : list ntok -> list string -> Prop :=
 | SNShorts ds : ds <> [] -> Forall (flag_ok t) ds -> SpellN t (map NFlag ds) ["-" +s+ cluster_chars ds]
 | SNShortsAttached ds d s v :
     Forall (flag_ok t) ds -> In d t -> is_withparam d = true -> od_short d = Some s ->
-    v <> "" -> contains_char "=" v = false ->
+    v <> "" -> starts_with "=" v = false ->
     contains_char (short_char d) (cluster_chars ds) = false ->
     SpellN t (map NFlag ds ++ [NVal d v]) ["-" +s+ cluster_chars ds +s+ String (short_char d) v]
 | SNShortsEq ds d s v :
     Forall (flag_ok t) ds -> In d t -> is_withparam d = true -> od_short d = Some s -> v <> "" ->
+    contains_char (short_char d) (cluster_chars ds) = false ->
     SpellN t (map NFlag ds ++ [NVal d v]) ["-" +s+ cluster_chars ds +s+ String (short_char d) ("=" +s+ v)]
 | SNShortsSp ds d s v :
     Forall (flag_ok t) ds -> In d t -> is_withparam d = true -> od_short d = Some s -> plain v = true ->
@@ -210,48 +211,35 @@ Proof.
     cbn [unstack]. now rewrite app_nil_r, flat_inter_flags.
   - (* -abcoV *)
     destruct (short_char_spec t W d s H0 H2) as (Es & Hc1 & Hc2 & Hf).
-    destruct (cluster_no_eq t W ds H) as [Ne Nd].
     assert (Hhead : exists c r, cluster_chars ds +s+ String (short_char d) v = String c r /\ c <> "-"%char).
     { destruct ds as [|d0 r0]; [cbn; eauto|]. eapply cluster_head; eauto. discriminate. }
     destruct Hhead as (c & r & E & Hc). cbn [append]. rewrite E, (phase1_word_short t c r Hc), <- E.
     rewrite (unstack_flags t W _ ds _ H). cbn [unstack]. rewrite <- Es, Hf, H1.
-    assert (Hno : contains_char "=" (String "-" (cluster_chars ds +s+ String (short_char d) v)) = false).
-    { cbn [contains_char]. rewrite contains_app. cbn [contains_char]. rewrite Ne, H4.
-      assert (Ascii.eqb "=" (short_char d) = false) by (apply Ascii.eqb_neq; congruence).
-      rewrite H6. reflexivity. }
-    rewrite Hno.
     change (String "-" (cluster_chars ds +s+ String (short_char d) v)) with ((String "-" (cluster_chars ds)) +s+ String (short_char d) v).
     rewrite after_first_skip.
-    + destruct v as [|x y]; [congruence|]. rewrite flat_map_app, flat_inter_flags. reflexivity.
+    + destruct v as [|x y]; [congruence|].
+      assert (Nx : x <> "="%char).
+      { intro Ex. subst x. unfold starts_with in H4. cbn in H4. discriminate H4. }
+      assert (Hx : match String x y with String "=" r' => r' | _ => String x y end = String x y).
+      { destruct x as [[] [] [] [] [] [] [] []]; try reflexivity. congruence. }
+      rewrite Hx. rewrite flat_map_app, flat_inter_flags. reflexivity.
     + cbn [contains_char]. rewrite H5. assert (Ascii.eqb (short_char d) "-" = false) by (now apply Ascii.eqb_neq). now rewrite H6.
   - (* -abco=V *)
     destruct (short_char_spec t W d s H0 H2) as (Es & Hc1 & Hc2 & Hf).
-    destruct (cluster_no_eq t W ds H) as [Ne Nd].
     assert (Hhead : exists c r, cluster_chars ds +s+ String (short_char d) (String "=" v) = String c r /\ c <> "-"%char).
     { destruct ds as [|d0 r0]; [cbn; eauto|]. eapply cluster_head; eauto. discriminate. }
     destruct Hhead as (c & r & E & Hc). cbn [append]. rewrite E, (phase1_word_short t c r Hc), <- E.
     rewrite (unstack_flags t W _ ds _ H). cbn [unstack]. rewrite <- Es, Hf, H1.
-    assert (Hyes : contains_char "=" (String "-" (cluster_chars ds +s+ String (short_char d) (String "=" v))) = true).
-    { cbn [contains_char]. rewrite contains_app. cbn [contains_char]. rewrite Ascii.eqb_refl. now rewrite !orb_true_r. }
-    cbn [append] in Hyes. cbn [append]. rewrite Hyes.
-    assert (Er : String "-" (cluster_chars ds +s+ String (short_char d) (String "=" v))
-                 = ((String "-" (cluster_chars ds +s+ String (short_char d) "")) +s+ String "=" v)).
-    { cbn [append]. f_equal. rewrite append_assoc. reflexivity. }
-    rewrite Er, after_first_skip.
+    change (String "-" (cluster_chars ds +s+ String (short_char d) (String "=" v))) with ((String "-" (cluster_chars ds)) +s+ String (short_char d) (String "=" v)).
+    rewrite after_first_skip.
     + destruct v as [|x y]; [congruence|]. rewrite flat_map_app, flat_inter_flags. reflexivity.
-    + cbn [contains_char]. rewrite contains_app. cbn [contains_char]. rewrite Ne.
-      assert (Ascii.eqb "=" (short_char d) = false) by (apply Ascii.eqb_neq; congruence). now rewrite H4.
+    + cbn [contains_char]. rewrite H4. assert (Ascii.eqb (short_char d) "-" = false) by (now apply Ascii.eqb_neq). now rewrite H5.
   - (* -abco V *)
     destruct (short_char_spec t W d s H0 H2) as (Es & Hc1 & Hc2 & Hf).
-    destruct (cluster_no_eq t W ds H) as [Ne Nd].
     assert (Hhead : exists c r, cluster_chars ds +s+ String (short_char d) "" = String c r /\ c <> "-"%char).
     { destruct ds as [|d0 r0]; [cbn; eauto|]. eapply cluster_head; eauto. discriminate. }
     destruct Hhead as (c & r & E & Hc). cbn [append]. rewrite E, (phase1_word_short t c r Hc), <- E.
     rewrite (unstack_flags t W _ ds _ H). cbn [unstack]. rewrite <- Es, Hf, H1.
-    assert (Hno : contains_char "=" (String "-" (cluster_chars ds +s+ String (short_char d) "")) = false).
-    { cbn [contains_char]. rewrite contains_app. cbn [contains_char]. rewrite Ne.
-      assert (Ascii.eqb "=" (short_char d) = false) by (apply Ascii.eqb_neq; congruence). now rewrite H5. }
-    rewrite Hno.
     change (String "-" (cluster_chars ds +s+ String (short_char d) "")) with ((String "-" (cluster_chars ds)) +s+ String (short_char d) "").
     rewrite after_first_skip.
     + rewrite (phase1_word_plain t v H3), flat_map_app, flat_inter_flags. cbn. now rewrite <- app_assoc.
